@@ -260,6 +260,38 @@ def file_precision(arr, decimals):
     return out
 
 
+def relayout(rng, M, readonly_ok=True):
+    """
+    The same array values in another memory layout, as callers may hand them over: C order,
+    Fortran order, a transposed view, a strided window of a larger array, optionally read-only
+    (np.load with mmap, arrays owned by other libraries).  Pure functions must not care.
+    """
+    M = np.asarray(M)
+    if M.ndim != 2:
+        return M
+    u = rng.integers(6)
+    if u == 0:
+        out = np.ascontiguousarray(M)
+    elif u == 1:
+        out = np.asfortranarray(M)
+    elif u == 2:
+        out = np.ascontiguousarray(M.T).T  # transposed view of a C-ordered array
+    elif u == 3:
+        big = np.zeros((2 * M.shape[0], 2 * M.shape[1]), dtype=M.dtype)
+        big[::2, ::2] = M
+        out = big[::2, ::2]  # strided window
+    elif u == 4:
+        big = np.full((M.shape[0] + 2, M.shape[1] + 3), 7, dtype=M.dtype)
+        big[1:-1, 2:-1] = M
+        out = big[1:-1, 2:-1]  # block of a larger array
+    else:
+        out = M.copy()
+    if readonly_ok and rng.random() < .25:
+        out = out.view()
+        out.setflags(write=False)
+    return out
+
+
 def rand_se3(rng, tscale=None):
     tscale = 10.0**rng.uniform(-3, 4) if tscale is None else tscale
     return rm.se3(rand_rot(rng), rng.normal(size=3) * tscale)
